@@ -4,6 +4,7 @@ package c16
 
 import (
 	"fmt"
+	"math"
 	"os"
 	"path/filepath"
 	"strconv"
@@ -97,6 +98,11 @@ var prepared = []string{
 const intoRows = "SELECT id, v FROM t WHERE id <= ? ORDER BY id"
 
 const sentinel = "#s"
+
+// offsets of FETCH ABSOLUTE/RELATIVE near the ends of the 64-bit (and 32-bit) integer range
+var hugeOffsets = []int{math.MaxInt64, math.MaxInt64 - 1, -math.MaxInt64, -math.MaxInt64 + 1, 1 << 62, -(1 << 62), 1 << 31, 1<<32 + 1, -(1 << 31) - 1, math.MaxInt64 - 5}
+
+func isHuge(n int) bool { return n > 1<<30 || n < -(1<<30) }
 
 type row struct {
 	ID int    `json:"id"`
@@ -219,6 +225,12 @@ func genFetch(t *rapid.T, cur string, g *gcur) opT {
 			} else {
 				o.N = uni(t, "rel", -9, 9)
 			}
+		}
+		if (o.Pos == "ABSOLUTE" || o.Pos == "RELATIVE") && chance(t, "huge", 9) {
+			// offsets near the ends of the integer range: the addressed position does not exist, the pointer
+			// goes beyond that end of the view (a sum with the pointer must not wrap around)
+			o.N = hugeOffsets[uni(t, "hugen", 0, len(hugeOffsets)-1)]
+			return o
 		}
 	}
 	if o.Pos == "ABSOLUTE" || o.Pos == "RELATIVE" {
@@ -567,7 +579,14 @@ func move(p int, pos string, n, ln int) int {
 	case "ABSOLUTE":
 		p = n
 	case "RELATIVE":
-		p += n
+		switch {
+		case n > 0 && p > math.MaxInt-n:
+			p = math.MaxInt
+		case n < 0 && p < math.MinInt-n:
+			p = math.MinInt
+		default:
+			p += n
+		}
 	case "FIRST":
 		p = 0
 	case "LAST":
@@ -1209,6 +1228,9 @@ func checkHist(c histCase) (fw.Outcome, *fw.Violation) {
 			}
 			class("fetch:" + posName(op.Pos))
 			class("fetch:" + res)
+			if (op.Pos == "ABSOLUTE" || op.Pos == "RELATIVE") && isHuge(op.N) {
+				class("fetch:huge_offset:" + op.Pos)
+			}
 			tok("F" + posName(op.Pos)[:1] + res[:1])
 
 		case "loopfetch":
@@ -1942,11 +1964,12 @@ func TestC16CursorHistory(t *testing.T) {
 	fw.Run(t, fw.Spec[histCase]{
 		ID: "C16", Name: "cursor_history", Quick: 30000, Thorough: 600000,
 		Gen: genCase, Check: checkHist,
-		Rule: "a table t (CSV file with text cells or temporary table with integer ids, 0-6 rows) and a history of 4-31 operations on two cursors generated up front: DECLARE (14 queries incl. ORDER BY, LIMIT, variable, self-join, FROM-subquery, computed integer/float columns, and four that fail for some table states: division by zero in the select list / in WHERE, scalar subquery with too many records, a table u that may not exist; 3 prepared statements incl. SELECT ... INTO), OPEN [USING none/one/two values], FETCH in all six positions with offsets -9..9 given as literal, variable (also one filled by an earlier FETCH) or expression, the same FETCH statement repeated inside a WHILE loop with integer arithmetic in between, CLOSE, DISPOSE, WHILE IN (VAR, BREAK, DML in the body; bodies that DISPOSE, CLOSE or CLOSE+re-OPEN the loop cursor in some iteration, directly or in a nested IF: every iteration fetches from what the name refers to then; an inner cursor of the same name declared in a nested block, looped over and disposed in the body, after which the name means the outer cursor), DISPOSE of the variables a FETCH filled followed by value-creating expressions (concatenation, string functions, arithmetic in SET/PRINT/SELECT) and re-reads of the same row, IS [NOT] OPEN / IS [NOT] IN RANGE / COUNT via SELECT or PRINT, INSERT/UPDATE/DELETE/COMMIT/ROLLBACK and ALTER TABLE DROP/ADD/RENAME on t, creation/disposal of u, integer-allocating statements; executed statement by statement on one session next to a model {declared, open, snapshot, pointer set, fetched}. OPEN must fail exactly when the cursor's own query (run as a statement, resp. EXECUTE of the prepared statement with the same values, immediately before or after) fails; after a failed OPEN the cursor is closed (IS OPEN FALSE, then whatever the history does next: FETCH/COUNT/IS IN RANGE raise 11003, a later OPEN snapshots the current table); after a successful one the snapshot is that reference result with value types; every cursor still open at the end is re-listed by FETCH ABSOLUTE 0..len and compared with it. Non-trivial = a data change between OPEN and a later in-range fetch, or a relative fetch after the pointer left the view; distinct by the compressed operation/outcome sequence",
+		Rule: "a table t (CSV file with text cells or temporary table with integer ids, 0-6 rows) and a history of 4-31 operations on two cursors generated up front: DECLARE (14 queries incl. ORDER BY, LIMIT, variable, self-join, FROM-subquery, computed integer/float columns, and four that fail for some table states: division by zero in the select list / in WHERE, scalar subquery with too many records, a table u that may not exist; 3 prepared statements incl. SELECT ... INTO), OPEN [USING none/one/two values], FETCH in all six positions with offsets -9..9 (9% of the undirected ABSOLUTE/RELATIVE fetches: literals around +-2^31, +-2^62 and +-(2^63-1)) given as literal, variable (also one filled by an earlier FETCH) or expression, the same FETCH statement repeated inside a WHILE loop with integer arithmetic in between, CLOSE, DISPOSE, WHILE IN (VAR, BREAK, DML in the body; bodies that DISPOSE, CLOSE or CLOSE+re-OPEN the loop cursor in some iteration, directly or in a nested IF: every iteration fetches from what the name refers to then; an inner cursor of the same name declared in a nested block, looped over and disposed in the body, after which the name means the outer cursor), DISPOSE of the variables a FETCH filled followed by value-creating expressions (concatenation, string functions, arithmetic in SET/PRINT/SELECT) and re-reads of the same row, IS [NOT] OPEN / IS [NOT] IN RANGE / COUNT via SELECT or PRINT, INSERT/UPDATE/DELETE/COMMIT/ROLLBACK and ALTER TABLE DROP/ADD/RENAME on t, creation/disposal of u, integer-allocating statements; executed statement by statement on one session next to a model {declared, open, snapshot, pointer set, fetched}. OPEN must fail exactly when the cursor's own query (run as a statement, resp. EXECUTE of the prepared statement with the same values, immediately before or after) fails; after a failed OPEN the cursor is closed (IS OPEN FALSE, then whatever the history does next: FETCH/COUNT/IS IN RANGE raise 11003, a later OPEN snapshots the current table); after a successful one the snapshot is that reference result with value types; every cursor still open at the end is re-listed by FETCH ABSOLUTE 0..len and compared with it. Non-trivial = a data change between OPEN and a later in-range fetch, or a relative fetch after the pointer left the view; distinct by the compressed operation/outcome sequence",
 		Assumptions: []string{
 			"variables after an out-of-range fetch: NULL (manual) and unchanged (implementation) are both admitted, record data is not",
 			"after a WHILE IN that ran to the end the pointer may be on the last record (literal reading of control-flow.md) or past it (FETCH NEXT semantics); the model keeps both until an observation decides",
 			"a FETCH with the wrong number of variables must fail when it addresses a record; whether the pointer moved is left open",
+			"a position beyond either end of the view leaves the pointer just beyond that end (before the first / after the last record), also when pointer + RELATIVE offset exceeds the 64-bit integer range (the model adds with saturation)",
 			"CLOSE of a closed cursor, DISPOSE of an open cursor and redeclaration are not constrained by the property (redeclaration without the error 11001 discards the case)",
 			"a FETCH offset that is not a number (NULL, non-numeric text) must raise an error (11008, or the undeclared/closed error) and deliver nothing; accepted silently on an open cursor it discards the case; float-valued offsets are left out (conversion not documented)",
 			"statements on t or u that fail for a reason outside the property (DML after a column was dropped, CREATE of an existing file) are no-ops of the history; a DML failing inside a WHILE IN body ends the loop inside that iteration with the pointer on the record just visited",
